@@ -101,7 +101,7 @@ def small_params(kind):
                 for n in (0, 1, 2, 3) for (w, d) in ((0.95, 0.9), (0.99, 0.6), (0.8, 0.5), (0.6, 0.9))]
     if kind == "STEPD":
         return [{"window_size": n, "alpha_warning": w, "alpha_drift": d}
-                for n in (1, 2, 3) for (w, d) in ((0.05, 0.003), (0.4, 0.3), (0.3, 0.05), (0.05, 0.3))]
+                for n in (1, 2, 3) for (w, d) in ((0.05, 0.003), (0.4, 0.3), (0.3, 0.05), (0.05, 0.3), (0.7, 0.55))]
 
 
 def random_params(kind, rng):
@@ -115,6 +115,8 @@ def random_params(kind, rng):
                 "warning_thresh": min(0.999, d + rng.choice([0.03, 0.05, 0.05, 0.09, -0.1]))}
     if kind == "STEPD":
         d = rng.choice([0.001, 0.003, 0.003, 0.01, 0.05])
+        if rng.random() < 0.2:      # significance levels above one half are legal: then every decrease of accuracy alarms, and ONLY a decrease
+            return {"window_size": rng.choice([5, 10, 30]), "alpha_drift": rng.choice([0.05, 0.52, 0.6]), "alpha_warning": rng.choice([0.55, 0.65, 0.7])}
         return {"window_size": rng.choice([1, 5, 10, 30, 30]), "alpha_drift": d,
                 "alpha_warning": min(0.5, d * rng.choice([2, 10, 16.7, 5, 0.3]))}
 
